@@ -27,6 +27,9 @@ from .loader import AnalysisError
 from .loader import Repo
 
 
+_NO = object()
+
+
 @dataclass
 class Emit:
     kind: str  # emitted token kind (constant string)
@@ -100,6 +103,8 @@ class LexerModel:
         self.emits: List[Emit] = []
         self.skipped: Set[str] = set()
         self.illegal: Set[str] = set()
+        self._concrete: Optional["re.Match[str]"] = None  # a real match of the master pattern (tokens_of)
+        self._captured: List[Tuple[List[str], Optional[str]]] = []
         self._parse_tokenize()
 
     # ------------------------------------------------------------ tokenize
@@ -147,6 +152,10 @@ class LexerModel:
             if any(v is True for v in vals):
                 return True
             return False if all(v is False for v in vals) else None
+        if self._concrete is not None:
+            cv = self._concrete_value(fn, test, rule, env)
+            if cv is not _NO:
+                return bool(cv)
         if not any(self._is_kind(n) or (isinstance(n, ast.Name) and n.id in env) for n in ast.walk(test) if isinstance(n, ast.expr)):
             return None
         try:
@@ -157,6 +166,99 @@ class LexerModel:
             return bool(v)
         return None
 
+    def _concrete_value(self, fn, e: ast.expr, rule: str, env: Dict[str, object]) -> object:  # type: ignore[no-untyped-def]
+        """Value of a test on the matched text itself (`match.group("G_EXP")[1] == "-"`) for the concrete match of
+        `tokens_of`: the group accessors are replaced by what they return, the rest is constants."""
+        m = self._concrete
+        assert m is not None
+        mname = self._match_name
+
+        def ev(x: ast.expr) -> object:
+            if isinstance(x, ast.Constant):
+                return x.value
+            if self._is_kind(x):
+                return rule
+            if isinstance(x, ast.Name) and x.id in env and isinstance(env[x.id], (str, int, bool, type(None))):
+                return env[x.id]
+            if (isinstance(x, ast.Call) and isinstance(x.func, ast.Attribute) and isinstance(x.func.value, ast.Name) and x.func.value.id == mname
+                    and x.func.attr in ("group", "start", "end") and not x.keywords and len(x.args) <= 1):
+                args = [ev(a) for a in x.args]
+                if any(not isinstance(a, (str, int)) or isinstance(a, bool) for a in args):
+                    raise NotConst("group name")
+                try:
+                    return getattr(m, x.func.attr)(*args)
+                except (IndexError, error_cls) as err:
+                    raise NotConst(str(err)) from err
+            if isinstance(x, ast.BoolOp):
+                cur: object = None
+                for v in x.values:
+                    cur = ev(v)
+                    if isinstance(x.op, ast.And) and not cur:
+                        return cur
+                    if isinstance(x.op, ast.Or) and cur:
+                        return cur
+                return cur
+            if isinstance(x, ast.UnaryOp) and isinstance(x.op, ast.Not):
+                return not ev(x.operand)
+            if isinstance(x, ast.Subscript) and not isinstance(x.slice, ast.Slice):
+                base, k = ev(x.value), ev(x.slice)
+                if isinstance(base, str) and isinstance(k, int) and not isinstance(k, bool):
+                    try:
+                        return base[k]
+                    except IndexError as err:
+                        raise NotConst("index") from err
+                raise NotConst("subscript")
+            if isinstance(x, ast.Compare) and len(x.ops) == 1:
+                a, b = ev(x.left), ev(x.comparators[0])
+                op = x.ops[0]
+                if isinstance(op, ast.Eq):
+                    return a == b
+                if isinstance(op, ast.NotEq):
+                    return a != b
+                if isinstance(op, ast.Is):
+                    return a is b
+                if isinstance(op, ast.IsNot):
+                    return a is not b
+                if isinstance(op, (ast.In, ast.NotIn)) and isinstance(b, (str, tuple)) and isinstance(a, str):
+                    return (a in b) == isinstance(op, ast.In)
+            if isinstance(x, ast.Call) and isinstance(x.func, ast.Attribute) and x.func.attr in ("startswith", "endswith") and len(x.args) == 1 and not x.keywords:
+                base, a0 = ev(x.func.value), ev(x.args[0])
+                if isinstance(base, str) and isinstance(a0, str):
+                    return getattr(base, x.func.attr)(a0)
+            raise NotConst(ast.unparse(x)[:40])
+
+        error_cls = re.error
+        try:
+            return ev(e)
+        except NotConst:
+            return _NO
+
+    def tokens_of(self, text: str) -> List[Tuple[str, str, str]]:
+        """Tokenise `text` exactly: the master pattern finds the rule, the dispatch of `tokenize` is then walked
+        with the concrete match, so a kind that depends on the matched text (an integer with a negative exponent
+        is a float) is decided.  [(rule, emitted kind, value)]; AnalysisError when a test is still undecided."""
+        fn = self.repo.require_func("Lexer.tokenize")
+        loop = next(n for n in fn.node.body if isinstance(n, ast.For))
+        out: List[Tuple[str, str, str]] = []
+        for m in self.compiled().finditer(text):
+            rule = m.lastgroup or ""
+            self._concrete, self._captured = m, []
+            try:
+                ends: Set[str] = set()
+                self._walk(fn, loop.body, rule, ends, {})
+                captured = self._captured
+            finally:
+                self._concrete, self._captured = None, []
+            if not captured:
+                if "raise" in ends:
+                    out.append((rule, "<ILLEGAL>", m.group()))
+                continue
+            for kinds, group in captured:
+                if len(kinds) != 1:
+                    raise AnalysisError(f"Lexer.tokenize: the kind emitted for `{m.group()}` (rule {rule}) is not decided: {kinds}")
+                out.append((rule, kinds[0], m.group(group) if group is not None else m.group()))
+        return out
+
     def _parse_tokenize(self) -> None:
         """Abstractly execute the loop body of `tokenize` once per lexer rule."""
         fn = self.repo.require_func("Lexer.tokenize")
@@ -164,6 +266,7 @@ class LexerModel:
         if len(loops) != 1:
             raise AnalysisError("Lexer.tokenize: expected one loop over the rule matches")
         loop = loops[0]
+        self._match_name = loop.target.id if isinstance(loop.target, ast.Name) else "match"
         self._kind_names: Set[str] = set()
         for n in ast.walk(loop):
             if isinstance(n, ast.Assign) and len(n.targets) == 1 and isinstance(n.targets[0], ast.Name) and isinstance(
@@ -206,6 +309,11 @@ class LexerModel:
                     ok = True
                 except NotConst:
                     ok = False
+                    if self._concrete is not None:
+                        # `exponent = match.group("G_EXP")`: known for the concrete match of tokens_of
+                        cv = self._concrete_value(fn, s.value, rule, env)  # type: ignore[arg-type]
+                        if cv is not _NO and (cv is None or isinstance(cv, (str, int, bool))):
+                            val, ok = cv, True
                 for t in targets:
                     if isinstance(t, ast.Name):
                         if ok:
@@ -284,6 +392,9 @@ class LexerModel:
             kinds.append(kv)
 
         kinds_of(kind_e)
+        if self._concrete is not None:
+            self._captured.append((kinds, group))
+            return
         for k2 in kinds:
             e = Emit(k2, rule, group, or_empty)
             if e not in self.emits:
